@@ -1,4 +1,6 @@
-import Ypv.Lemmas.EditSet
+import Ypv.Lemmas.EditHistory
+import Ypv.Props.C04
+import Ypv.Props.C09
 /-!
 # C03 — a set changes exactly the matched nodes (and their aliases), nothing else
 
@@ -9,14 +11,6 @@ is replaced iff its address is matched or it carries the anchor name of a matche
 -/
 namespace Ypv.C03
 open Ypv
-
-/-- the predicate of one model step is the target predicate of the one-address specification -/
-theorem isRef_eq_isTarget (d : Node) (a : Addr) (n : Node) (h : d.get? a = some n) :
-    isRef a n.anchor = isTarget d [a] := by
-  funext y m
-  simp only [isRef, isTarget, matchedAnchors, List.filterMap_cons, List.filterMap_nil, h, Option.bind_some]
-  cases hn : n.anchor <;> cases hm : m.anchor <;> simp [List.contains_cons, hn]
-  all_goals (rw [Bool.eq_iff_iff]; simp)
 
 /-- **set_step_eq_spec.** One matched address: the model step equals the specification — the
 matched node and every node carrying its anchor name (its aliases, under map keys and inside
@@ -29,49 +23,82 @@ theorem set_step_eq_spec (v : Scalar) (fmt : Fmt) (d : Node) (a : Addr) (n : Nod
   unfold setStep setSpec
   simp [ha, hm, hget, hs, isRef_eq_isTarget d a n hget]
 
-/-- The document after the steps for `addrs` when every new scalar is `s`. -/
-def stepsDoc (s : Scalar) : Node → List Addr → Node
-  | d, [] => d
-  | d, a :: rest => stepsDoc s (setSpec d [a] s) rest
+/-- **set_eq_spec.**  For every document of the model class (`ScalarAnchors`: below the root only
+scalars carry anchors) and EVERY list of matched addresses that lead to scalars (`MatchedScalars`:
+any number, any order, repeats, an anchor together with its own aliases), the sequence of model steps
+`set_value` performs equals the ONE-SHOT specification on the ORIGINAL document: a node holds the new
+scalar (anchor kept) iff its address is matched or it carries the anchor name of a matched node;
+nothing else is entered or changed.  `s` is the scalar `make_new_node` produces for the matched nodes
+(hypothesis `hv`; see `set_ok_eq_spec` for the form without it). -/
+theorem set_eq_spec (v : Scalar) (fmt : Fmt) (s : Scalar) : ∀ (d : Node) (addrs : List Addr),
+    MatchedScalars d addrs → ScalarAnchors d →
+    (∀ a ∈ addrs, ∀ n, d.get? a = some n → newScalar n.anchor.isSome v fmt = .ok s) →
+    setValue v fmt d addrs = .ok (setSpec d addrs s)
+  | d, [], _, _, _ => by simp [setValue, setSpec_nil]
+  | d, a :: rest, hm, hs, hv => by
+    obtain ⟨hm1, hmr⟩ := matchedScalars_tail hm
+    obtain ⟨ha, hmem, n, hg, _⟩ := hm a (by simp)
+    have hstep := set_step_eq_spec v fmt d a n s ha hmem hg (hv a (by simp) n hg)
+    have ih := set_eq_spec v fmt s (setSpec d [a] s) rest (matchedScalars_setSpec hm1 hs s hmr)
+      (scalarAnchors_setSpec hm1 hs s) (by
+        intro b hb n' hg'
+        obtain ⟨_, _, n0, hg0, _⟩ := hmr b hb
+        obtain ⟨n1, hg1, _, hanc, _⟩ := get?_setSpec_inv hm1 hs s b (hmr b hb).1 n' hg'
+        rw [hanc]; exact hv b (by simp [hb]) n1 hg1)
+    simp only [setValue, hstep, ih, setSpec_setSpec hm hs s]
 
-/-- The targets of the addresses still to be processed are not affected by the steps already made
-(holds when the matched nodes are scalars and only scalars carry anchors: a step then replaces
-scalars by scalars with the same anchors at the same addresses). -/
-def Stable (s : Scalar) : Node → List Addr → Prop
-  | _, [] => True
-  | d, a :: rest => isTarget (setSpec d [a] s) rest = isTarget d rest ∧ Stable s (setSpec d [a] s) rest
+/-- `make_new_node` yields the same scalar for an anchored and for a plain source node whenever it
+yields one for both (an anchored source only adds failures: `None` cannot carry an anchor). -/
+theorem newScalar_indep (v : Scalar) (fmt : Fmt) (b b' : Bool) (s s' : Scalar)
+    (h : newScalar b v fmt = .ok s) (h' : newScalar b' v fmt = .ok s') : s = s' := by
+  cases fmt <;> try (simp only [newScalar] at h h'; rw [h] at h'; cases h'; rfl)
+  cases v <;> simp only [newScalar] at h h'
+  case null => cases b <;> cases b' <;> simp at h h'; rw [← h, ← h']
+  case str t =>
+    cases ht : eTypedValue t <;> simp only [ht] at h h' <;> try (rw [h] at h'; cases h'; rfl)
+    cases b <;> cases b' <;> simp at h h'; rw [← h, ← h']
+  all_goals (rw [h] at h'; cases h'; rfl)
 
-theorem isTarget_anchor_only (d : Node) (addrs : List Addr) (y : Addr) (n n' : Node)
-    (h : n.anchor = n'.anchor) : isTarget d addrs y n = isTarget d addrs y n' := by
-  simp [isTarget, h]
+/-- a successful `set_value` means `make_new_node` succeeded for every matched node -/
+theorem setValue_ok_scalars (v : Scalar) (fmt : Fmt) (d' : Node) : ∀ (d : Node) (addrs : List Addr),
+    MatchedScalars d addrs → ScalarAnchors d → setValue v fmt d addrs = .ok d' →
+    ∀ b ∈ addrs, ∀ n, d.get? b = some n → ∃ s, newScalar n.anchor.isSome v fmt = .ok s
+  | d, [], _, _, _ => by intro b hb; cases hb
+  | d, a :: rest, hm, hs, hok => by
+    obtain ⟨hm1, hmr⟩ := matchedScalars_tail hm
+    obtain ⟨ha, hmem, n, hg, _⟩ := hm a (by simp)
+    cases hn : newScalar n.anchor.isSome v fmt with
+    | error e => simp [setValue, setStep, ha, hmem, hg, hn] at hok
+    | ok s =>
+      have hstep := set_step_eq_spec v fmt d a n s ha hmem hg hn
+      simp only [setValue, hstep] at hok
+      have ih := setValue_ok_scalars v fmt d' (setSpec d [a] s) rest (matchedScalars_setSpec hm1 hs s hmr)
+        (scalarAnchors_setSpec hm1 hs s) hok
+      intro b hb m hgm
+      rcases List.mem_cons.mp hb with rfl | hb
+      · rw [hg] at hgm; cases hgm; exact ⟨s, hn⟩
+      · have := ih b hb (imageAt (isTarget d [a]) s b m)
+          (by rw [get?_setSpec hm1 hs s b (hmr b hb).1, hgm]; rfl)
+        rwa [imageAt_anchor] at this
 
-theorem isTarget_cons (d : Node) (a : Addr) (rest : List Addr) :
-    (fun y n => isTarget d [a] y n || isTarget d rest y n) = isTarget d (a :: rest) := by
-  funext y n
-  simp only [isTarget, matchedAnchors, List.filterMap_cons, List.filterMap_nil, List.contains_cons]
-  cases hn : n.anchor with
-  | none => simp [List.contains_cons]
-  | some x =>
-    cases hg : (d.get? a).bind Node.anchor <;> simp [List.contains_cons, Bool.or_assoc, Bool.or_comm, Bool.or_left_comm]
-
-/-- /-  FULL STATEMENT (not proved): for every `d` in which only scalars carry anchors and every
-`addrs` whose nodes are scalars, `setValue v fmt d addrs = .ok (setSpec d addrs s)`.  -/
-**set_eq_spec_partial.** The sequence of model steps over ANY list of matched addresses equals the
-one-shot specification on the original document, provided the targets are `Stable`.
-Missing for the full statement: the lemma `Stable s d addrs` from "matched nodes are scalars and only
-scalars carry anchors" (`get?` through `mapAt`); everything else — in particular that the passes
-compose (`mapAt_mapAt`) — is proved. -/
-theorem set_eq_spec_partial (s : Scalar) : ∀ (d : Node) (addrs : List Addr), Stable s d addrs →
-    stepsDoc s d addrs = setSpec d addrs s
-  | d, [], _ => by
-    simp only [stepsDoc, setSpec]
-    exact (mapAt_none d _ _ (by intro y n; simp [isTarget, matchedAnchors]; cases n.anchor <;> simp)).symm
-  | d, a :: rest, h => by
-    obtain ⟨h1, h2⟩ := h
-    have ih := set_eq_spec_partial s (setSpec d [a] s) rest h2
-    simp only [stepsDoc, ih]
-    unfold setSpec at *
-    rw [h1, mapAt_mapAt d _ _ s (fun y n n' hh => isTarget_anchor_only d rest y n n' hh), isTarget_cons]
+/-- **set_ok_eq_spec.**  The same without assuming the new scalar: whenever `set_value` succeeds on
+a list of matched scalars of a model-class document, the outcome is the one-shot specification for
+ONE scalar `s` (`make_new_node` yields the same scalar for every matched node). -/
+theorem set_ok_eq_spec (v : Scalar) (fmt : Fmt) (d d' : Node) (addrs : List Addr)
+    (hm : MatchedScalars d addrs) (hs : ScalarAnchors d) (hok : setValue v fmt d addrs = .ok d') :
+    ∃ s, d' = setSpec d addrs s := by
+  have hall := setValue_ok_scalars v fmt d' d addrs hm hs hok
+  cases addrs with
+  | nil => simp [setValue] at hok; exact ⟨.null, by rw [setSpec_nil, hok]⟩
+  | cons a rest =>
+    obtain ⟨_, _, n, hg, _⟩ := hm a (by simp)
+    obtain ⟨s, hsn⟩ := hall a (by simp) n hg
+    refine ⟨s, ?_⟩
+    have := set_eq_spec v fmt s d (a :: rest) hm hs (by
+      intro b hb m hgm
+      obtain ⟨s', hs'⟩ := hall b hb m hgm
+      rw [hs', newScalar_indep v fmt _ _ s s' hsn hs'])
+    rw [this] at hok; cases hok; rfl
 
 /-- **set_frame.** The frame of every pass: a subtree in which no node is a target is returned
 unchanged; a mapping keeps all its keys in order (no key is ever renamed, however it is spelled);
@@ -88,6 +115,134 @@ together — are equal afterwards (the in-model reading of "no duplicate or unde
 theorem set_keeps_anchors (s : Scalar) (n m : Node) (h : n.anchor = m.anchor) :
     putScalar s n = putScalar s m ∧ (putScalar s n).anchor = n.anchor := by
   refine ⟨by simp [putScalar, h], putScalar_anchor s n⟩
+
+/-- **set_preserves_anchorWF** (whole documents).  In a model-class document in which all nodes
+carrying one anchor name are equal (`AnchorWF`: an anchor and its aliases), a set through ANY matched
+scalars — the anchored node itself, one of its aliases, several of them, bystanders — leaves a document
+in which all nodes carrying one anchor name are again equal: an anchor is never left with an alias of a
+different value (the in-model reading of "dumps without duplicate or undefined anchors"). -/
+theorem set_preserves_anchorWF (s : Scalar) (d : Node) (addrs : List Addr)
+    (hm : MatchedScalars d addrs) (hs : ScalarAnchors d) (hw : AnchorWF d) :
+    AnchorWF (setSpec d addrs s) := by
+  intro y y' n' m' hy hy' hg hg' ha he
+  obtain ⟨n, hgn, hn', hanc, _⟩ := get?_setSpec_inv hm hs s y hy n' hg
+  obtain ⟨m, hgm, hm', hancm, _⟩ := get?_setSpec_inv hm hs s y' hy' m' hg'
+  have hnm : n = m := hw y y' n m hy hy' hgn hgm (by rw [← hanc]; exact ha) (by rw [← hanc, ← hancm]; exact he)
+  subst hnm
+  cases hx : n.anchor with
+  | none => rw [hanc, hx] at ha; cases ha
+  | some x =>
+    rw [hn', hm', imageAt_anchored hs s hy hgn hx, imageAt_anchored hs s hy' hgm hx]
+
+/-- The same for the model run: after a successful `set_value` the document is anchor-well-formed
+and still in the model class (so the statement carries over to every later edit). -/
+theorem set_preserves_anchorWF_model (v : Scalar) (fmt : Fmt) (d d' : Node) (addrs : List Addr)
+    (hm : MatchedScalars d addrs) (hs : ScalarAnchors d) (hw : AnchorWF d)
+    (hok : setValue v fmt d addrs = .ok d') : AnchorWF d' ∧ ScalarAnchors d' := by
+  obtain ⟨s, rfl⟩ := set_ok_eq_spec v fmt d d' addrs hm hs hok
+  exact ⟨set_preserves_anchorWF s d addrs hm hs hw, scalarAnchors_setSpec hm hs s⟩
+
+/-! ### Histories: the model refines a plain-data model
+
+`Node.plain` erases every anchor (aliases are already expanded in `Node`).  The plain-data model
+(`POp`, `runPlain` in `Spec/Edit.lean`) has three elementary edits, none of which can look at an
+anchor: put a scalar at the nodes whose ADDRESS is in a given set, remove the nodes at a set of
+addresses, replace the node at one address.  `OpAbs d op pops` reads an operation performed in the
+anchored document `d` as plain edits: a set is one `put` per `_update_node` call, at the addresses of
+the matched node and of the nodes carrying its anchor name in the document of that moment
+(`stepAbs`); a delete is `remove` of the matched addresses; a creation is a `graft` of the node
+`createHere` builds at the deepest existing node (C09 `create_exact`) followed by the `put` of the
+value.  Documents have pairwise different mapping keys (`Node.keysNodup`; true of every loaded YAML
+document) — this is what makes "the nodes at these addresses" the same thing in both models. -/
+
+/-- every operation has a plain-data reading -/
+theorem opAbs_total (d : Node) (op : Op) : ∃ pops, OpAbs d op pops := by
+  cases op with
+  | set addrs v fmt =>
+    cases h : setValue v fmt d addrs with
+    | error e => exact ⟨[], .failed (e := e) (by simp [Op.apply, h])⟩
+    | ok d' => exact ⟨_, .set h⟩
+  | delete addrs =>
+    by_cases h : [] ∈ addrs
+    · exact ⟨[], .failed (e := .ypath .noDocument) (by simp [Op.apply, C04.delete_root_refused d addrs h])⟩
+    · exact ⟨_, .delete h⟩
+  | create segs v fmt =>
+    cases hw : wrapType v with
+    | error e => exact ⟨[], .failed (e := e) (by simp [Op.apply, setOrCreate, getOrCreate, hw])⟩
+    | ok leaf =>
+      cases hc : d.createPath leaf segs with
+      | error e => exact ⟨[], .failed (e := e) (by simp [Op.apply, setOrCreate, getOrCreate, hw, hc])⟩
+      | ok r =>
+        cases hs : setStep v fmt r.doc r.addr with
+        | error e => exact ⟨[], .failed (e := e) (by simp [Op.apply, setOrCreate, getOrCreate, hw, hc, hs])⟩
+        | ok d' =>
+          cases C09.create_exact leaf d segs r hc with
+          | present n hf hd => exact ⟨_, .createNone hw hc hd (by rw [← hd]; exact hs)⟩
+          | nullRelay pre seg rest q n ref _ _ _ _ hd _ => exact ⟨_, .createNone hw hc hd (by rw [← hd]; exact hs)⟩
+          | created pre seg rest q n n' hseg hf hl hch hd ha => exact ⟨_, .created hw hc hseg hf hl hch hd hs⟩
+
+/-- **One operation on plain data** (from `C04.delete_eq_spec`, `C09.create_exact`, `step_refines`):
+erasing the anchors after the operation = running its plain-data reading on the erased document. -/
+theorem opAbs_sound (d : Node) (op : Op) (pops : List POp) (hk : d.keysNodup = true) (h : OpAbs d op pops) :
+    (op.step d).plain = runPlain d.plain pops ∧ (op.step d).keysNodup = true := by
+  cases h with
+  | failed he => simp only [Op.step, he, runPlain]; exact ⟨trivial, hk⟩
+  | set hs =>
+    simp only [Op.step, Op.apply, hs]
+    exact setAbs_refines _ _ _ d _ hk hs
+  | delete hr =>
+    rename_i addrs
+    have : delete d addrs = .ok (d.removeAll addrs) := by rw [C04.delete_eq_spec]; simp [deleteSpec, hr]
+    simp only [Op.step, Op.apply, this, runPlain, POp.apply]
+    exact ⟨plain_removeAll d _, keysNodup_removeAll d _ hk⟩
+  | createNone hw hc hd hs =>
+    rename_i d' segs v fmt leaf r
+    have : setOrCreate d segs v fmt = .ok d' := by
+      simp only [setOrCreate, getOrCreate, hw, hc, hd]; exact hs
+    simp only [Op.step, Op.apply, this, runPlain]
+    exact step_refines _ _ d _ _ hk hs
+  | created hw hc hseg hf hl hch hd hs =>
+    rename_i d' segs v fmt leaf r pre seg rest q n n'
+    have : setOrCreate d segs v fmt = .ok d' := by
+      simp only [setOrCreate, getOrCreate, hw, hc]; exact hs
+    simp only [Op.step, Op.apply, this, runPlain]
+    have hkn' := createHere_keysNodup (keysNodup_get? q d n hk hf.get?) hl hch
+    have hk1 : r.doc.keysNodup = true := by rw [hd]; exact keysNodup_graftAt n' hkn' d q hk
+    obtain ⟨h1, h2⟩ := step_refines v fmt r.doc d' r.addr hk1 hs
+    refine ⟨?_, h2⟩
+    rw [h1, hd, plain_graftAt (fun _ => n') (fun _ => n'.plain) (fun _ => rfl) d q]
+    rfl
+
+/-- **history_refines.**  For EVERY list of set / delete / create operations (any matched addresses,
+any values; failing operations change nothing) and every document with pairwise different mapping
+keys, the history has a plain-data reading `pops` (`HistAbs`: operation by operation, in the document
+of that moment) and erasing the anchors COMMUTES with running it:
+`(runOps d ops).plain = runPlain d.plain pops`. -/
+theorem history_refines : ∀ (ops : List Op) (d : Node), d.keysNodup = true →
+    ∃ pops, HistAbs d ops pops ∧ (runOps d ops).plain = runPlain d.plain pops ∧ (runOps d ops).keysNodup = true
+  | [], d, hk => ⟨[], .nil d, rfl, hk⟩
+  | op :: ops, d, hk => by
+    obtain ⟨p1, ha⟩ := opAbs_total d op
+    obtain ⟨h1, hk1⟩ := opAbs_sound d op p1 hk ha
+    obtain ⟨p2, hb, h2, hk2⟩ := history_refines ops (op.step d) hk1
+    have hrun : runOps d (op :: ops) = runOps (op.step d) ops := by
+      simp only [runOps, Op.step]; cases op.apply d <;> rfl
+    exact ⟨p1 ++ p2, .cons ha hb, by rw [hrun, h2, h1, runPlain_append], by rw [hrun]; exact hk2⟩
+
+/-- The plain-data outcome does not depend on which reading of the history is taken (the only
+freedom `OpAbs` leaves is how a creation is split into existing prefix and missing tail). -/
+theorem history_refines_det (ops : List Op) (d : Node) (pops pops' : List POp)
+    (h : HistAbs d ops pops) (h' : HistAbs d ops pops') (hk : d.keysNodup = true) :
+    runPlain d.plain pops = runPlain d.plain pops' := by
+  induction h generalizing pops' with
+  | nil d => cases h'; rfl
+  | cons ha hb ih =>
+    cases h' with
+    | cons ha' hb' =>
+      obtain ⟨h1, hk1⟩ := opAbs_sound _ _ _ hk ha
+      obtain ⟨h1', _⟩ := opAbs_sound _ _ _ hk ha'
+      rw [runPlain_append, runPlain_append, ← h1, ← h1']
+      exact ih _ hb' hk1
 
 /-! ### Concrete witnesses -/
 
@@ -106,4 +261,43 @@ example : setValue (.int 5) .default
       (.map none [(.str ['a'], I (some ['x']) 1), (.str ['b'], .seq none [I (some ['x']) 1, I none 2])]) [[.key (.str ['a'])]]
     = .ok (.map none [(.str ['a'], I (some ['x']) 5), (.str ['b'], .seq none [I (some ['x']) 5, I none 2])]) := by
   decide +kernel
+
+/-- `a: &x 1`, `b: [*x, 2]`, `c: 1`: the hypotheses of `set_eq_spec` / `set_preserves_anchorWF` are
+met by a document with an anchored scalar, its alias inside a sequence and an equal bystander, for a
+match list naming the alias, the anchor and the alias again. -/
+def docX : Node := .map none [(.str ['a'], I (some ['x']) 1),
+  (.str ['b'], .seq none [I (some ['x']) 1, I none 2]), (.str ['c'], I none 1)]
+def addrsX : List Addr := [[.key (.str ['b']), .idx 0], [.key (.str ['a'])], [.key (.str ['b']), .idx 0]]
+example : ScalarAnchors docX := scalarAnchors_of_below _ (by decide +kernel)
+example : AnchorWF docX := anchorWF_of_below _ (by decide +kernel)
+example : MatchedScalars docX addrsX := by
+  intro a ha
+  simp [addrsX] at ha
+  rcases ha with rfl | rfl | rfl <;> exact ⟨by decide, by decide, I (some ['x']) 1, by decide +kernel, rfl⟩
+example : setValue (.int 5) .default docX addrsX = .ok (setSpec docX addrsX (.int 5)) := by decide +kernel
+example : setSpec docX addrsX (.int 5) = .map none [(.str ['a'], I (some ['x']) 5),
+  (.str ['b'], .seq none [I (some ['x']) 5, I none 2]), (.str ['c'], I none 1)] := by decide +kernel
+/-- why the model class is needed: an anchored CONTAINER with an alias, set through the anchor —
+the alias copy keeps the old content (out of model: Python shares the object). -/
+example : ¬ AnchorWF (setSpec (.map none [(.str ['a'], .seq (some ['x']) [I none 1]), (.str ['b'], .seq (some ['x']) [I none 1])])
+    [[.key (.str ['a']), .idx 0]] (.int 5)) := by
+  intro h
+  have := h [.key (.str ['a'])] [.key (.str ['b'])] (.seq (some ['x']) [I none 5]) (.seq (some ['x']) [I none 1])
+    (by simp) (by simp) (by decide +kernel) (by decide +kernel) rfl rfl
+  revert this; decide +kernel
+
+/-- a history over `docX` (anchored scalar + alias): set through the anchor, delete a list element,
+create `n[1]`; and its plain-data reading — the `put` of the first step names the alias address too. -/
+def histX : List Op := [.set [[.key (.str ['a'])]] (.int 5) .default, .delete [[.key (.str ['b']), .idx 1]],
+  .create [.key ['n'], .index 1] (.str ['x']) .default]
+example : docX.keysNodup = true := by decide +kernel
+example : (runOps docX histX).plain = runPlain docX.plain
+    [.put (fun y => y == [.key (.str ['a'])] || y == [.key (.str ['b']), .idx 0]) (.int 5),
+     .remove [[.key (.str ['b']), .idx 1]],
+     .graft [] (.map none [(.str ['a'], I none 5), (.str ['b'], .seq none [I none 5]), (.str ['c'], I none 1),
+        (.str ['n'], .seq none [.scalar none (.str ['x']), .scalar none (.str ['x'])])]),
+     .put (fun y => y == [.key (.str ['n']), .idx 1]) (.str ['x'])] := by decide +kernel
+example : OpAbs docX (.set [[.key (.str ['a'])]] (.int 5) .default)
+    (setAbs (.int 5) .default docX [[.key (.str ['a'])]]) :=
+  .set (d' := setSpec docX [[.key (.str ['a'])]] (.int 5)) (by decide +kernel)
 end Ypv.C03
